@@ -79,7 +79,11 @@ func (propC12) Gen(r *Rng, tier string) *World {
 	w.Calls = []Plan{p}
 	// further calls on the same Expr, with other bindings: events of earlier
 	// calls are retained while later calls run
-	for i, n := 0, []int{0, 0, 1, 2}[r.Intn(4)]; i < n; i++ {
+	extraCalls := []int{0, 0, 1, 2}[r.Intn(4)]
+	if tier == "thorough" {
+		extraCalls = r.Intn(6)
+	}
+	for i, n := 0, extraCalls; i < n; i++ {
 		q := Plan{Kind: []string{"eval", "eval", "tryeval"}[r.Intn(3)], Bind: g.Binding()}
 		if q.Kind == "tryeval" && r.P(0.5) {
 			for _, v := range w.Cfg.Vars {
